@@ -179,7 +179,9 @@ func c02Restore(c c02Case, entries []*rdb.BinEntry, lg *rdbgen.Logical, body []b
 	if c.HashTag {
 		targetKey = c02StripTag(keyName)
 	}
-	opt := mredis.Options{Registry: c02Registry, NoReplace: !c.Replace}
+	// the model's clock is frozen at the start of the case, so no key expires while it runs
+	frozen := nowMs()
+	opt := mredis.Options{Registry: c02Registry, NoReplace: !c.Replace, Now: func() int64 { return frozen }}
 	if c.Reject {
 		opt.RejectTypes = map[byte]bool{entries[0].Type: true}
 	}
@@ -220,7 +222,6 @@ func c02Restore(c c02Case, entries []*rdb.BinEntry, lg *rdbgen.Logical, body []b
 	var rerr error
 	returned := false
 	var goPanic interface{}
-	t0 := nowMs()
 	done := make(chan struct{})
 	go func() {
 		defer close(done)
@@ -292,6 +293,10 @@ func c02Restore(c c02Case, entries []*rdb.BinEntry, lg *rdbgen.Logical, body []b
 		// an error is never "success"; it is only acceptable where the statement allows one
 		return bad("error", "restore fails: "+rerr.Error())
 	}
+	if c.Exp == 2 && got == nil {
+		// the source key is already expired: it gets a 1 ms TTL and may be gone by now
+		return route + ":ok-expired"
+	}
 	if why := c02Same(got, lg, body); why != "" {
 		return bad("value", "after a successful restore the target "+why)
 	}
@@ -313,8 +318,9 @@ func c02Restore(c c02Case, entries []*rdb.BinEntry, lg *rdbgen.Logical, body []b
 		if got.ExpireAt == 0 {
 			return bad("ttl-lost", "source key has an expiry, target key has none")
 		}
-		lo := expireAt - shiftMs
-		hi := expireAt - shiftMs + (t1 - t0) + 1
+		// target expiry = frozen + (source expiry - shift - clock read by the tool), the tool's clock is in [frozen, t1]
+		lo := expireAt - shiftMs - (t1 - frozen) - 1
+		hi := expireAt - shiftMs + 1
 		if got.ExpireAt < lo-1 || got.ExpireAt > hi {
 			return bad("ttl-wrong", fmt.Sprintf("target expires at %d, expected %d (source expiry minus shift) within [%d,%d]", got.ExpireAt, expireAt-shiftMs, lo-1, hi))
 		}
